@@ -504,7 +504,7 @@ theorem projection_frame_partial (db : DB) (l l' : String) (hne : l ≠ l') (id 
 -- ================================================================ STAGE 2, THE FULL THEOREM (every history)
 /-! ### `projection_refines_replay` — proved
 
-How (files `Lemmas/StoreSql*.lean`, ≈ 4 500 lines, no `decide` on histories):
+How (files `Lemmas/StoreSql*.lean`, ≈ 5 000 lines, no `decide` on histories):
 1. **data refinement** (`StoreSqlAbs`): a typed database `ADB` (ledger a `String`, `seq` a `Nat`, dates and volumes integers, metadata
    key/value lists) with `conc : ADB → DB`; for every GENERATED function `f` the equation `f (conc A) args = conc (aF A …)` is proved
    by unfolding the regenerated definition (`upsert_account_conc`, `insert_move_conc`, `insert_posting_conc`,
